@@ -23,7 +23,7 @@ CHECKS = {
    text="Crash images (page cache survives) at a seeded sample of the file-mutation points of every run (thorough: all), plus torn prefixes of writes at record-field boundaries, in FileIO and MMap, SyncEnable on/off, with same-millisecond transactions and failed commits; every image is mounted, opened and fully observed and must equal the acknowledged state or that plus the in-flight transaction. One run in seven is a scheduled multi-goroutine program: the image must show a prefix of the lock-grant order that contains every acknowledged write transaction and only transactions that had been granted the lock.",
    note="Process-crash model: completed writes survive, the write in flight survives as a prefix. Restart takes >= 1 ms."),
  "C11": dict(cat="fault_enumeration", tech="deterministic simulation with power-loss injection: per-file durable image + seeded subset/prefix/torn unsynced operations, recovery judged against S / S+T",
-   text="As C10 with SyncEnable=true and power-loss images: files revert to their last-synced content plus a seeded choice among unsynced operations; unsynced creations may vanish and removals may be undone.",
+   text="As C10 with SyncEnable=true and power-loss images: files revert to their last-synced content plus a seeded choice among unsynced operations; unsynced creations may vanish and removals may be undone. One run in eight is a scheduled multi-goroutine program judged like C10's scheduled sub-batch.",
    note="Assumes (as the property grants) that a sync of a file persists its directory entry, and that directories are durable once created."),
  "C13": dict(cat="exploration", tech="deterministic simulation: self-reading multi-op transactions judged by a strict sequential model, with deviant-model attribution of the recorded known finding",
    text="Seeded write transactions that read/pop structures they already modified, judged by the strict sequential model; runs the strict model rejects are excused only when the single deviant switch (evaluate on the start state, apply at commit) explains every result and observation.",
